@@ -87,7 +87,7 @@ def assets():
     s1, s2 = song1(), song2()
     good = [(0, _meta(0x03, b"ok")), (0, bytes([0x95, 60, 100])), (24, bytes([0x85, 60, 0]))]
     # rejected in the middle: a well-formed header and first track, then a track the event parser gives up on
-    sbadtrk = smf([good, [(0, bytes([0x40, 0x40])), (0, bytes([0x95, 61, 100]))], good])      # data byte without running status
+    sbadtrk = smf([good, [(0, bytes([0xFF, 0x03, 0x7F, 0x41, 0x42]))], good])               # meta text longer than its track
     sbadvlq = smf([good, [(0, bytes([0x95, 61, 100]))]])
     k = sbadvlq.rindex(b"MTrk") + 8
     sbadvlq = sbadvlq[:k] + bytes([0xFF, 0xFF, 0xFF, 0xFF, 0xFF]) + sbadvlq[k + 5:]          # delta time that never ends
